@@ -604,3 +604,52 @@ theorem init_spec (m : List Region) (ksA keA : Nat) (hs : SortedMap m) (hp : Ker
       simp
 
 end Firefly.Pmm
+
+namespace Firefly.Pmm
+open Firefly.Gen.Pmm
+
+/-- the metadata loop with a scripted `mapFn` failure ends in out-of-memory or in that error, and
+never reports success when the failing call is reached -/
+theorem metaPages_outcomes (m : List Region) (mf : Option Nat) (n idx : Nat) (b : Boot) :
+    (metaPages m mf n idx b).2 = .ok ∨ (metaPages m mf n idx b).2 = .oom ∨
+    (metaPages m mf n idx b).2 = .mapErr := by
+  induction n generalizing idx b with
+  | zero => exact Or.inl rfl
+  | succ n ih =>
+    unfold metaPages
+    cases ha : bootAlloc m b with
+    | mk b' r =>
+      cases r with
+      | none => exact Or.inr (Or.inl rfl)
+      | some f =>
+        simp only
+        by_cases hm : mf = some idx
+        · rw [if_pos hm]; exact Or.inr (Or.inr rfl)
+        · rw [if_neg hm]; exact ih (idx + 1) b'
+
+/-- **init_error_paths** — a failing `reserveRegionFn` is reported as that error; with a failing
+`mapFn` the outcome is that error or out-of-memory (whichever comes first); in neither case does
+initialisation report success with a half-built state, and it never crashes before the bitmaps
+exist. -/
+theorem init_error_paths (m : List Region) (b : Boot) (mf : Option Nat) :
+    (bitmapInit m b false mf).outcome = .reserveErr ∧
+    ((metaPages m mf (requiredBytes (poolsOf m) / pageSize) 0 b).2 ≠ .ok →
+      (bitmapInit m b true mf).outcome = .oom ∨ (bitmapInit m b true mf).outcome = .mapErr) := by
+  constructor
+  · unfold bitmapInit; simp
+  · intro h
+    unfold bitmapInit
+    simp only [Bool.not_true, Bool.false_eq_true, if_false]
+    cases hmp : metaPages m mf (requiredBytes (poolsOf m) / pageSize) 0 b with
+    | mk b1 o =>
+      rw [hmp] at h
+      have := metaPages_outcomes m mf (requiredBytes (poolsOf m) / pageSize) 0 b
+      rw [hmp] at this
+      cases o with
+      | ok => exact absurd rfl h
+      | oom => exact Or.inl rfl
+      | mapErr => exact Or.inr rfl
+      | reserveErr => simp at this
+      | panic => simp at this
+
+end Firefly.Pmm
